@@ -214,6 +214,11 @@ def reset_initial_conditions(
         else:
             # No surface bunds
             InitCond.surface_storage = 0
+        # The previous simulated day belongs to an earlier season: its potential
+        # evaporation and transpiration must not enter the first irrigation
+        # decision of the new season
+        InitCond.e_pot = 0
+        InitCond.t_pot = 0
 
     # Update crop parameters (if in gdd mode)
     if crop.CalendarType == 2:
